@@ -40,6 +40,19 @@ CHECKS["C17"] = dict(
     note=COMMON_NOTE + " Monotonicity of the three-scale map for 1/2 <= smoothing < 1 is not decided. Known finding F7 (inherited inverse map).",
 )
 
+CHECKS["C18"] = dict(
+    level="other",
+    technique="static analysis: mask-provenance dataflow on masked assignments, rank arithmetic of subscripts per branch, exhaustive match-dispatch "
+              "check, single-writer state group, CFG typestate (mode change -> rebuild), writer/reader format agreement",
+    text="The property quantifies over input shapes, return dimensions, mode pairs and call histories; the rules decide the structural "
+         "necessary conditions that hold for all of them at once: every masked store evaluates exactly the masked points, subscript arity "
+         "fits the result rank for scalar- and vector-valued functions, finiteness masks are per abscissa, both per-side dispatches are "
+         "exhaustive and side-consistent, the six table attributes form one state group written only by _interpolate from one filtered "
+         "(x, fx) pair, extensions keep (below, old, above) order strictly outside the old range, a mode change always rebuilds the "
+         "spline, and the text writer/reader agree on columns, delimiter and precision.",
+    note=COMMON_NOTE + " Interpolation accuracy and rounding in float-step arange are not decided.",
+)
+
 NOT_APPLICABLE = {}
 
 ENGINES = [
